@@ -61,6 +61,11 @@ def gen(rng, tier):
     n = 150 if tier == 'quick' else 4000
     out = [dict(src=_src(rng), recipes=[_recipe(rng) for _ in range(rng.randint(1, 4))]) for _ in range(n)]
     out.append(witnesses()[0][1])
+    # files that carry a CF time variable (getTimes prefers it) whose time axis is changed without touching SDATE/STIME
+    for fn in ('mean', 'every2', 'rev', 'first2'):
+        src = _src(rng)
+        src.update(kind=rng.choice(['griddesc', 'griddesc_bnd']), withcf=True, nt=rng.choice([3, 4, 6]))
+        out.append(dict(src=src, recipes=[], ops=[['apply', 'TSTEP', fn]] + ([['subset', ['O3']]] if rng.random() < 0.5 else [])))
     return out
 
 
@@ -216,7 +221,7 @@ def resolve(recipe, f):
             return ['s', lo, hi - L if hi < L else None]
         return ['s', lo, hi]
     if k == 'copy':
-        return ['copy']
+        return ['copy', r[0] % 3 == 0]
     if k == 'slicet':
         # index lists along TSTEP: unevenly spaced, increasing (the selected TFLAG rows are kept, not regenerated)
         L = dims.get('TSTEP', 0)
@@ -277,7 +282,7 @@ def resolve(recipe, f):
 def apply_op(f, op):
     k = op[0]
     if k == 'copy':
-        return f.copy()
+        return f.copy(data=False) if (len(op) > 1 and op[1]) else f.copy()      # a structure-only copy keeps coherent metadata too
     if k == 'slice':
         kw = {}
         for d, w in op[1]:
